@@ -305,9 +305,7 @@ func c18HRun(c c18HCase, env *c18HEnv, rep int) (hist []c18Rec, viol *C18Viol) {
 			defer func() {
 				if r := recover(); r != nil {
 					panics[g] = fmt.Sprint(r)
-					if len(rounds) > 0 {
-						rounds[0].Abort()
-					}
+					C18AbortBarriers(rounds)
 				}
 			}()
 			recs := make([]c18Rec, 0, len(progs[g]))
